@@ -280,9 +280,10 @@ def check_results_lenient(ctx, cfg, model, res, tag=""):
     strict = (fn, cfg["type"]) in (("anneal_puso", "PUSO"), ("anneal_puso", "PCSO"), ("anneal_puso", "QUSO"), ("anneal_quso", "QUSO"))
     reported = set(model.variables) if strict else None
     for r in res:
-        if reported is not None and set(r.state) != reported:
-            # a labelled model's variables are the ones it reports (a cancelled, un-refreshed variable is still one of them)
-            ctx.violation(tag + "state-not-over-the-models-variables", "state over %r, model.variables %r" % (
+        if reported is not None and not set(r.state) <= reported:
+            # (a cancelled, un-refreshed variable may or may not be kept in the states -- both occur on the unchanged tree --
+            #  but nothing outside the model's reported variables may appear)
+            ctx.violation(tag + "state-over-foreign-variables", "state over %r, model.variables %r" % (
                 sorted(map(repr, r.state)), sorted(map(repr, reported))), w)
             return False
         if not tv <= set(r.state) or any(v not in dom for v in r.state.values()) or r.spin is not spin:
